@@ -723,10 +723,11 @@ class Exec:
         return False
 
     def s_While(self, n):
-        spec = self.fv.contract.loops.get(self.loop_ord[id(n)])
+        wo = self.loop_ord.get(id(n), -1)         # -1: a loop of an inlined helper (no specification of its own)
+        spec = self.fv.contract.loops.get(wo)
         if spec is None:
-            raise Untranslatable(f"while loop #{self.loop_ord[id(n)]} has no invariant")
-        lname = f"loop#{self.loop_ord[id(n)]}"
+            raise Untranslatable(f"while loop #{wo} (line {n.lineno}) has no invariant")
+        lname = f"loop#{wo}"
         for nm, f in spec.inv(self.env, self.st, None):
             self.oblige(f"{self.fv.qual}:{lname}:inv-established:{nm}", f)
         self.havoc_loop(n, spec)
@@ -800,7 +801,7 @@ class Exec:
             if not broke:
                 self.stmts(n.orelse)
             return
-        ordn = self.loop_ord[id(n)]
+        ordn = self.loop_ord.get(id(n), -1)
         spec = self.fv.contract.loops.get(ordn)
         if spec is None and isinstance(it, ObjV) and it.role == "opaque-coll":
             spec = LoopSpec()      # nothing is claimed about a loop over an uninterpreted table
@@ -1170,6 +1171,26 @@ class Exec:
             return res
         raise PyRaise(ExcV(ex.kind))
 
+    def inline(self, fn, amap, label):
+        """a callee that has no contract of its own (a small private helper, e.g. one extracted by a refactoring) is executed
+        in place, with its own variable frame; recursion and deep nesting are refused"""
+        depth = getattr(self, "inline_depth", 0)
+        if depth >= 3:
+            raise Untranslatable(f"inlining of {label}: too deep")
+        saved = self.env
+        self.env = dict(amap)
+        self.inline_depth = depth + 1
+        try:
+            try:
+                self.stmts(fn.body)
+                res = Conc(None)
+            except _Return as r:
+                res = r.value
+        finally:
+            self.env = saved
+            self.inline_depth = depth
+        return res
+
     def lineno_rel(self):
         return getattr(self, "lineno", 0) - self.fv.fn.lineno
 
@@ -1306,6 +1327,12 @@ class FuncVC:
                                   "unfolded (sequence lengths <= 3): " +
                                   ", ".join(f"{d.name()}={mdl[d]}" for d in list(mdl.decls())[:30]
                                             if d.arity() == 0))[:3000]
+                if status == FAILED and (":inv-established:" in name or ":inv-preserved:" in name or ":variant-" in name):
+                    # a loop invariant / variant is a proof artefact, not a statement of the property: when it stops holding the
+                    # specification no longer fits the code (the loops were restructured, or the body changed) - undecided here;
+                    # what the change does to the property is for the postconditions and the bounded companion to say
+                    status = UNDECIDED
+                    detail = "the loop specification does not fit the code any more: " + detail
                 if status == FAILED and self.contract.replayer is not None and self.prover.last_model is not None:
                     try:
                         rp = self.contract.replayer(self.prover.last_model, ex.args, ex)
@@ -1315,6 +1342,13 @@ class FuncVC:
                     if rp:
                         self.replays.append((name, rp))
                 record(name, status, detail, dt)
+        if any(st == UNDECIDED and "the loop specification does not fit" in det for st, det, _ in results.values()):
+            # the loop specifications are out of step with the code: a failed postcondition of the same function was derived from
+            # invariants that no longer describe its loops and cannot be attributed to the property either
+            replayed = {n for n, _ in self.replays}
+            for nm, (st, det, dt) in list(results.items()):
+                if st == FAILED and nm not in replayed:
+                    results[nm] = (UNDECIDED, "(loop specifications of this function do not fit the code) " + det, dt)
         self.paths = npaths
         self.exits_seen = exits_seen
         self.seconds = time.time() - t_start
